@@ -1519,3 +1519,50 @@ fn inject_define_component_option(call: &mut CallExpr, name: &'static str, value
         }
     }
 }
+
+#[cfg(feature = "verif")]
+impl<C> VueJsxTransformVisitor<C>
+where
+    C: Comments,
+{
+    /// Read-only dump of the visitor's mutable state in a fixed order.
+    /// Used by the verification driver for state canonicalisation and coverage only.
+    pub fn verif_state(&self) -> String {
+        let mut interfaces = self
+            .interfaces
+            .keys()
+            .map(|(name, _)| name.to_string())
+            .collect::<Vec<_>>();
+        interfaces.sort();
+        let mut type_aliases = self
+            .type_aliases
+            .keys()
+            .map(|(name, _)| name.to_string())
+            .collect::<Vec<_>>();
+        type_aliases.sort();
+        let decl_names = |decls: &Vec<VarDeclarator>| {
+            decls
+                .iter()
+                .map(|decl| match &decl.name {
+                    Pat::Ident(ident) => ident.id.sym.to_string(),
+                    _ => String::from("?"),
+                })
+                .collect::<Vec<_>>()
+        };
+        format!(
+            "imports={:?};transform_on={};slot_helper={};define_component={};pragma={:?};vars={:?};consts={:?};slot_counter={};slot_flags={:?};assignment_left={:?};interfaces={:?};type_aliases={:?}",
+            self.vue_imports.keys().collect::<Vec<_>>(),
+            self.transform_on_helper.is_some(),
+            self.slot_helper_ident.is_some(),
+            self.define_component.is_some(),
+            self.pragma,
+            decl_names(&self.injecting_vars),
+            decl_names(&self.injecting_consts),
+            self.slot_counter,
+            self.slot_flag_stack,
+            self.assignment_left.as_ref().map(|ident| ident.sym.to_string()),
+            interfaces,
+            type_aliases,
+        )
+    }
+}
